@@ -47,7 +47,7 @@ def floors(tier):
     return {"evaluations": 9_000 if tier == "quick" else 50_000, "distinct": 9_000 if tier == "quick" else 50_000,
             "counters": {"ops_checked": 35_000, "lockstep_compares": 60_000, "saves": 300, "reopened_tables_compared": 300, "second_saves": 20,
                          "hostile_ops": 300, "multi_document_histories": 20, "tile_boundary_tables": 5, "wide_tables": 3, "fixture_starts": 5,
-                         "cross_table_checks": 2000, "inserts_with_default": 500, "reloaded_merged_starts": 15, "lookups_by_name": 3000, "renames_onto_a_freed_name": 20}}
+                         "cross_table_checks": 2000, "inserts_with_default": 500, "reloaded_merged_starts": 15, "lookups_by_name": 3000, "sparse_tall_tables": 6, "renames_onto_a_freed_name": 20}}
 
 
 def alphabet(R, C):
@@ -105,6 +105,7 @@ class TableRef:
         self.grid = grid
         self.trusted_values = True
         self.merged_rect = None  # (r0, c0, r1, c1) of a merged region the table came with: C12's business, left alone here
+        self.sparse_from = None  # writes only at or below this row, no structural edits: the blocks above stay empty
 
     def where(self):
         return [self.doc_i, self.sheet_i, self.table_i]
@@ -377,11 +378,20 @@ def run_random_history(case, rec):
                 tr0 = TableRef(di, 0, 0, t, Grid(0, 0, t.rows(values_only=True)))
                 tr0.merged_rect = (r0, c0, r1, c1)
                 trs.append(tr0)
+            elif c < .33:
+                # a tall table that is empty except far down: whole 256-row blocks of it hold nothing at all
+                R, Cn = rng.choice([(520, 2), (700, 3), (600, 1), (1030, 2)])
+                doc = Document(num_rows=R, num_cols=Cn, num_header_rows=0, num_header_cols=0)
+                docs_.append(doc)
+                tr0 = TableRef(di, 0, 0, doc.sheets[0].tables[0], Grid(R, Cn))
+                tr0.sparse_from = rng.choice([256, 300, 512]) if R > 520 else 300
+                trs.append(tr0)
+                rec.count("sparse_tall_tables")
             else:
-                if c < .35:
+                if c < .41:
                     R, Cn = rng.choice([(255, 2), (256, 1), (257, 2), (250, 3)])
                     rec.count("tile_boundary_tables")
-                elif c < .42:
+                elif c < .48:
                     R, Cn = rng.choice([(2, 256), (3, 255), (2, 257)])
                     rec.count("wide_tables")
                 else:
@@ -424,11 +434,15 @@ def run_random_history(case, rec):
         op = None
         if tr.merged_rect is not None and .42 <= c < .8:
             c = rng.choice([.1, .83])  # no structural edits of a table with a merged region (C12): write beside it, or add a table
+        if tr.sparse_from is not None and c < .8:
+            c = .1
         if c < .42:
             if rng.random() < .12 and g.rows < 300 and g.cols < 270 and tr.merged_rect is None:
                 r, cc = g.rows + rng.randint(0, 2), rng.randrange(g.cols) if rng.random() < .5 else g.cols + rng.randint(0, 1)
             else:
                 r, cc = rng.randrange(g.rows), rng.randrange(g.cols)
+            if tr.sparse_from is not None:
+                r = rng.randrange(min(tr.sparse_from, g.rows - 1), g.rows)
             if tr.merged_rect is not None and tr.merged_rect[0] <= r <= tr.merged_rect[2] and tr.merged_rect[1] <= cc <= tr.merged_rect[3]:
                 continue
             op = {"op": "write", "r": r, "c": cc, "v": V.enc(rand_value(rng))}
